@@ -325,6 +325,20 @@ Theorem C03_merge_unordered_disk_after_commit : forall v inuse fails old new uno
 Proof. exact unordered_disk_after_commit. Qed.
 Print Assumptions C03_merge_unordered_disk_after_commit.
 
+(* deleteUnorderedFiles after fix5 (park first, stop at the first input that cannot be parked): whatever fails, the inputs that
+   are still visible on disk - and in the live list - are a SUFFIX of the merged inputs (the newest ones); every other file and
+   the intent-log state are untouched. With merge_ooo_preserves_contents: answers unchanged live and after restart. *)
+Theorem C03_unordered_inputs_stay_a_suffix : forall inuse fails us i st liveU,
+  NoDup us ->
+  exists k, k <= length us /\
+    snd (unord_rep inuse fails i us st liveU) = lrm_all (firstn k us) liveU /\
+    (forall u, In u (firstn k us) -> files (fst (unord_rep inuse fails i us st liveU)) (u, false) = None) /\
+    (forall u b, In u (skipn k us) -> files (fst (unord_rep inuse fails i us st liveU)) (u, b) = files st (u, b)) /\
+    (forall p, ~ In (fst p) us -> files (fst (unord_rep inuse fails i us st liveU)) p = files st p) /\
+    logs (fst (unord_rep inuse fails i us st liveU)) = logs st.
+Proof. exact unord_rep_suffix. Qed.
+Print Assumptions C03_unordered_inputs_stay_a_suffix.
+
 (* sensitivity (documented mutant): deleting the out-of-order inputs BEFORE the replacement loses them when the replacement
    then fails (here: the intent log cannot be created) *)
 Theorem order_matters_refuted_unordered_deleted_before_replace :
